@@ -326,6 +326,12 @@ func runC11(c *Ctx) {
 	// ---- R11i / R11j
 	c.Rule("R11i", ruleTextPendingLowerBound, 3)
 	checkPendingLowerBound(c, "R11i")
+	c.Rule("R11n", ruleTextCommentOpeners, 2)
+	checkCommentOpeners(c, "R11n")
+	c.Rule("R11l", ruleTextCheckpointLookup, 3)
+	checkCheckpointLookup(c, "R11l")
+	c.Rule("R11m", ruleTextExecOrderVocab, 3)
+	checkExecOrderVocab(c, "R11m")
 	c.Rule("R11k", ruleTextNoStaleRevisions, 1)
 	checkNoStaleRevisions(c, "R11k")
 	c.Rule("R11j", ruleTextDirRestored, 1)
